@@ -212,10 +212,10 @@ def token_unit(ctx, src):
                    Rule(r'self->positional\.emplace_back\(move\(arg\)\);', 'C17_positional_emplace_back(self, C17_whole(arg));', count='+', regex=True),
                    Rule(r'self->named\[(.*?)\]\.emplace_back\((.*?)\);', r'C17_named_emplace_back(self, \1, \2);', count='+', regex=True),
                    Rule('""', 'C17_empty()', count='+'),
-                   Rule(r"arg\.find\(('[^']*'), ([^()]+)\)", r'C17_find(arg, \1, \2)', count=1, regex=True),
+                   Rule(r"arg\.find\(('[^']*'), ([^()]+)\)", r'C17_find(arg, \1, \2)', count=None, regex=True),
                    Rule(r'\bstring::npos\b', 'VSTR_NPOS', count='+', regex=True),
-                   Rule('arg.empty()', '(arg->size == 0)', count='+'),
-                   Rule('arg.size()', 'arg->size', count='+'),
+                   Rule('arg.empty()', '(arg->size == 0)', count=None),
+                   Rule('arg.size()', 'arg->size', count=None),
                    Rule(r'\barg\[([^\]]+)\]', r'arg->data[\1]', count='+', regex=True)],
             nloops=1, loops={1: FLAGS_LOOP})
     u.write()
